@@ -198,6 +198,15 @@ Qed.
 Lemma q_div_neg_le e d : e <= 0 -> 0 < d -> e / d <= 0.
 Proof. intros. apply Qle_shift_div_r; lra. Qed.
 
+Theorem q_hll_order est re_lo re_hi nnz :
+  0 < re_lo -> -1 < re_hi -> re_hi < 0 -> inject_Z nnz <= est -> 0 <= est ->
+  inject_Z nnz <= hll_lb qops est re_lo nnz /\ hll_lb qops est re_lo nnz <= est /\ est <= hll_ub qops est re_hi.
+Proof.
+  intros H1 H2 H3 H4 H5. unfold hll_lb, hll_ub. cbn [ndiv nadd none qops nofZ]. repeat split.
+  - apply q_cfmax_ge_r.
+  - apply q_cfmax_lub; auto. apply q_div_le_self; lra.
+  - apply q_div_ge_self; lra.
+Qed.
 Theorem q_hll_widen est re1 re2 nnz : 0 <= est -> 0 < re1 -> re1 <= re2 ->
   hll_lb qops est re2 nnz <= hll_lb qops est re1 nnz.
 Proof.
